@@ -7,6 +7,7 @@ import Holpy.C03.HeapProofs
 import Holpy.C03.SubstProofs
 import Holpy.C03.MemoProofs
 import Holpy.C03.CacheProofs
+import Holpy.C03.FProofs
 /-
 C03 — term equality is alpha-equivalence; substitution is capture-free.
 
@@ -95,6 +96,54 @@ example : fastCompare (.abs "x" Ty.bool (.bound 0)) (.abs "y" Ty.bool (.bound 0)
     fastCompare (.var "b" Ty.bool) (.var "a" (Ty.fn Ty.bool Ty.bool)) = .gt ∧
     fastCompare (.var "b" Ty.bool) (.comb (.var "a" Ty.bool) (.var "a" Ty.bool)) = .lt := by decide
 
+/-- Transitivity of `fast_compare` in all four combinations of `<` and `=` (with `cmp_antisymm`: a
+strict total order on terms up to `==`; what `sorted` / `cmp_to_key` need for a canonical result). -/
+theorem cmp_trans (a b c : Term) :
+    (fastCompare a b = .lt → fastCompare b c = .lt → fastCompare a c = .lt) ∧
+    (fastCompare a b = .lt → fastCompare b c = .eq → fastCompare a c = .lt) ∧
+    (fastCompare a b = .eq → fastCompare b c = .lt → fastCompare a c = .lt) ∧
+    (fastCompare a b = .eq → fastCompare b c = .eq → fastCompare a c = .eq) :=
+  cmp_tt a b c
+
+example : fastCompare (.var "a" Ty.bool) (.var "b" Ty.bool) = .lt ∧
+    fastCompare (.var "b" Ty.bool) (.abs "x" Ty.bool (.bound 0)) = .lt ∧
+    fastCompare (.var "a" Ty.bool) (.abs "x" Ty.bool (.bound 0)) = .lt := by decide
+
+/-- Antisymmetry and consistency with `==`: `a < b` iff `b > a`; two terms neither of which is
+greater than the other are `==`; and `fast_compare` gives the same answer on `==` terms (so the
+order is an order on alpha-classes and sorting cannot separate or reorder equal terms inconsistently). -/
+theorem cmp_antisymm (a b : Term) :
+    (fastCompare a b = .lt ↔ fastCompare b a = .gt) ∧
+    (fastCompare a b = .gt ↔ fastCompare b a = .lt) ∧
+    (fastCompare a b ≠ .gt → fastCompare b a ≠ .gt → Term.aeq a b = true) ∧
+    (∀ a', Term.aeq a a' = true →
+      fastCompare a b = fastCompare a' b ∧ fastCompare b a = fastCompare b a') := by
+  have hs := cmp_swap a b
+  refine ⟨?_, ?_, ?_, fun a' h => ⟨cmp_congr_left a a' b h, cmp_congr_right b a a' h⟩⟩
+  · rw [← hs]; cases fastCompare a b <;> simp [Ordering.swap]
+  · rw [← hs]; cases fastCompare a b <;> simp [Ordering.swap]
+  · intro h1 h2
+    rw [← hs] at h2
+    apply (cmp_eq a b).1
+    cases e : fastCompare a b <;> simp_all [Ordering.swap]
+
+example : fastCompare (.abs "x" Ty.bool (.var "b" Ty.bool)) (.abs "y" Ty.bool (.var "a" Ty.bool)) = .gt ∧
+    fastCompare (.abs "y" Ty.bool (.var "a" Ty.bool)) (.abs "x" Ty.bool (.var "b" Ty.bool)) = .lt := by decide
+
+/-- Canonical form of sorting: what `sorted_terms` returns — a list strictly increasing w.r.t.
+`fast_compare` — is determined, up to `==` position by position, by the set of its elements up to
+`==`; it cannot depend on the order or the identity of the input objects.  (A consequence of
+`cmp_trans` / `cmp_antisymm`; with an inconsistent comparator it fails.) -/
+theorem sorted_canonical (l1 l2 : List Term) (s1 : StrictSorted l1) (s2 : StrictSorted l2)
+    (h12 : ∀ a ∈ l1, ∃ b ∈ l2, Term.aeq a b = true) (h21 : ∀ b ∈ l2, ∃ a ∈ l1, Term.aeq a b = true) :
+    Forall2 (fun a b => Term.aeq a b = true) l1 l2 :=
+  strictSorted_unique l1 l2 s1 s2 h12 h21
+
+example : StrictSorted [.var "a" Ty.bool, .var "b" Ty.bool, .abs "x" Ty.bool (.bound 0)] := by
+  simp only [StrictSorted, List.pairwise_cons, List.mem_cons, List.not_mem_nil, or_false,
+    forall_eq_or_imp, forall_eq, List.Pairwise.nil, and_true, false_implies, implies_true]
+  decide
+
 /-- `fast_compare_typ` is a total order on types whose equivalence is `==`. -/
 theorem cmp_ty_total (a b c : Ty) :
     (fastCompareTyp a b = .eq ↔ a = b) ∧
@@ -155,19 +204,32 @@ example : (staleHeap 1).map (·.id) = some 0 := by decide
 /-! ### the `_id`-keyed cache of `subst_bound` -/
 
 /-- `subst_bound` as written — results cached under `(s._id, binder depth)`, a node re-used when its
-children came back with the same `_id` — run in any heap satisfying `IdInv`, with any allocator
-answers and starting from any cache whose entries are right (`CacheOK`, e.g. the empty one), for a
-closed argument: the object returned represents exactly `substBoundAt` (the pure recursion of the
-kernel model, about which `substBound_wt/sem` speak) of the term the body represents; the invariant
-and the cache stay right, nothing existing is touched. -/
-theorem substBound_cache_sound (ua : Addr) (tu : Term) (hcl : Term.isOpenAt 0 tu = false)
+children came back with the same `_id`, and, when the argument is open (`opn` = `t.is_open()`),
+`t.incr_boundvars(n)` (heap-level, with its own `_id` re-use) at every occurrence of the bound
+variable — run in any heap satisfying `IdInv`, with any allocator answers and starting from any
+cache whose entries are right (`CacheOK`, e.g. the empty one): the object returned represents
+exactly `substBoundAt` (the pure recursion of the kernel model, about which `substBound_wt/sem`
+speak) of the term the body represents; the invariant and the cache stay right, nothing existing is
+touched.  `opn = false` is only sound for a closed argument (that is what `is_open` returns). -/
+theorem substBound_cache_sound (opn : Bool) (ifuel : Nat) (ua : Addr) (tu : Term)
+    (hcl : opn = false → Term.isOpenAt 0 tu = false)
     (fuel : Nat) (h : Heap) (c : Cache) (as : List Addr) (s : Addr) (n : Nat) (ts : Term)
     (res : Heap × Cache × List Addr × Addr)
     (hi : IdInv h) (ru : Repr h ua tu) (hc : CacheOK tu h c) (rs : Repr h s ts)
-    (e : sbHeap true ua fuel h c as s n = some res) :
+    (e : sbHeap true opn ifuel ua fuel h c as s n = some res) :
     IdInv res.1 ∧ (∀ x o, h x = some o → res.1 x = some o) ∧ CacheOK tu res.1 res.2.1 ∧
     Repr res.1 res.2.2.2 (Term.substBoundAt tu n ts) :=
-  sbHeap_sound ua tu hcl fuel h c as s n ts res hi ru hc rs e
+  sbHeap_sound opn ifuel ua tu hcl fuel h c as s n ts res hi ru hc rs e
+
+/-- `incr_boundvars(inc)` as written (`rec(t, lev)`, unchanged nodes re-used by `_id`, a loose
+`Bound(i)` replaced by a new `Bound(i + inc)`) returns a representation of `incrAt inc lev` of the
+represented term, in any heap satisfying `IdInv`, for any allocator answers. -/
+theorem incr_heap_sound (inc fuel : Nat) (h : Heap) (as : List Addr) (s : Addr) (lev : Nat) (ts : Term)
+    (res : Heap × List Addr × Addr) (hi : IdInv h) (rs : Repr h s ts)
+    (e : incrHeap inc fuel h as s lev = some res) :
+    IdInv res.1 ∧ (∀ x o, h x = some o → res.1 x = some o) ∧
+    Repr res.1 res.2.2 (Term.incrAt inc lev ts) :=
+  incrHeap_sound inc fuel h as s lev ts res hi rs e
 
 /-- `S = F (Bound 0)` at 2 (ONE object), the body `S (%y. S)` at 4, the closed argument `u` at 5 -/
 def cacheHeap : Heap :=
@@ -178,7 +240,7 @@ def cacheBody : Term :=
   .comb (.comb (.var "F" (Ty.fn Ty.bool Ty.bool)) (.bound 0))
     (.abs "y" Ty.bool (.comb (.var "F" (Ty.fn Ty.bool Ty.bool)) (.bound 0)))
 
-example : (sbHeap true 5 10 cacheHeap [] [10, 11, 12] 4 0).bind (fun r => readTerm r.1 10 r.2.2.2)
+example : (sbHeap true false 0 5 10 cacheHeap [] [10, 11, 12] 4 0).bind (fun r => readTerm r.1 10 r.2.2.2)
     = some (Term.substBoundAt (.var "u" Ty.bool) 0 cacheBody) ∧
     readTerm cacheHeap 10 4 = some cacheBody := by decide
 
@@ -186,12 +248,67 @@ example : (sbHeap true 5 10 cacheHeap [] [10, 11, 12] 4 0).bind (fun r => readTe
 its `Bound 0` is `y`, gets the result computed at depth 0: `(F u) (%y. F u)` instead of
 `(F u) (%y. F y)` — the bound variable of the inner binder is replaced by the argument. -/
 theorem substBound_cache_counterexample :
-    (sbHeap false 5 10 cacheHeap [] [10, 11, 12] 4 0).bind (fun r => readTerm r.1 10 r.2.2.2)
+    (sbHeap false false 0 5 10 cacheHeap [] [10, 11, 12] 4 0).bind (fun r => readTerm r.1 10 r.2.2.2)
       = some (.comb (.comb (.var "F" (Ty.fn Ty.bool Ty.bool)) (.var "u" Ty.bool))
           (.abs "y" Ty.bool (.comb (.var "F" (Ty.fn Ty.bool Ty.bool)) (.var "u" Ty.bool)))) ∧
     Term.substBoundAt (.var "u" Ty.bool) 0 cacheBody
       = .comb (.comb (.var "F" (Ty.fn Ty.bool Ty.bool)) (.var "u" Ty.bool))
           (.abs "y" Ty.bool (.comb (.var "F" (Ty.fn Ty.bool Ty.bool)) (.bound 0))) := by decide
+
+/-- an OPEN argument `g (Bound 0)` at 7 (6 = `g`, 1 = `Bound 0`): under `%y` it must become
+`g (Bound 1)` -/
+def openHeap : Heap := (cacheHeap.set 6 ⟨.var "g" (Ty.fn Ty.bool Ty.bool), 6⟩).set 7 ⟨.comb 6 1, 7⟩
+
+example : (sbHeap true true 10 7 10 openHeap [] [10, 11, 12, 13, 14, 15, 16, 17] 4 0).bind
+      (fun r => readTerm r.1 10 r.2.2.2)
+    = some (Term.substBoundAt (.comb (.var "g" (Ty.fn Ty.bool Ty.bool)) (.bound 0)) 0 cacheBody) ∧
+    Term.substBoundAt (.comb (.var "g" (Ty.fn Ty.bool Ty.bool)) (.bound 0)) 0 cacheBody
+      = .comb (.comb (.var "F" (Ty.fn Ty.bool Ty.bool)) (.comb (.var "g" (Ty.fn Ty.bool Ty.bool)) (.bound 0)))
+          (.abs "y" Ty.bool (.comb (.var "F" (Ty.fn Ty.bool Ty.bool)) (.bound 0))) := by decide
+
+example : (incrHeap 2 10 openHeap [10, 11] 7 0).bind (fun r => readTerm r.1 10 r.2.2)
+    = some (.comb (.var "g" (Ty.fn Ty.bool Ty.bool)) (.bound 2)) := by decide
+
+/-! ### the `_id`-keyed cache of `Term.subst` -/
+
+/-- `rec` of `Term.subst` as written — the result of every `Comb` / `Abs` node cached under `t._id`
+alone, a node re-used when its children came back with the same `_id`, instances inserted as the
+objects they are — run in any heap satisfying `IdInv`, with any allocator answers and any right
+cache: if it returns, the pure `substRec` (the replacement step of the kernel model's `Term.subst`,
+about which `subst_wt/sem` speak) succeeds on the represented term and the returned object
+represents its result; invariant and cache stay right, nothing existing is touched.  (The type
+instantiation `subst_type` that precedes `rec` builds a new tree and uses no cache.) -/
+theorem subst_cache_sound (σ : Ty.TyInst) (sv vv : InstH) (fuel : Nat) (h : Heap) (c : Cache1)
+    (as : List Addr) (s : Addr) (ts : Term) (res : Heap × Cache1 × List Addr × Addr)
+    (hi : IdInv h) (hsv : InstOK h sv) (hvv : InstOK h vv) (hc : Cache1OK (instOf σ sv vv) h c)
+    (rs : Repr h s ts) (e : substHeap sv vv fuel h c as s = some res) :
+    IdInv res.1 ∧ (∀ x o, h x = some o → res.1 x = some o) ∧
+    Cache1OK (instOf σ sv vv) res.1 res.2.1 ∧
+    ∃ tr, Term.substRec (instOf σ sv vv) ts = .ok tr ∧ Repr res.1 res.2.2.2 tr :=
+  substHeap_sound σ sv vv fuel h c as s ts res hi hsv hvv hc rs e
+
+/-- `?p ?p` at 2, `q q` at 3, the pair of them at 4; the instance `c` for `?p` at 5 -/
+def substHeapEx (id3 : Addr) : Heap :=
+  (((((Heap.empty.set 0 ⟨.svar "p" Ty.bool, 0⟩).set 1 ⟨.var "q" Ty.bool, 1⟩).set 2 ⟨.comb 0 0, 2⟩).set 3
+    ⟨.comb 1 1, id3⟩).set 4 ⟨.comb 2 3, 4⟩).set 5 ⟨.const "c" Ty.bool, 5⟩
+
+example : (substHeap [("p", 5, .const "c" Ty.bool)] [] 10 (substHeapEx 3) [] [10, 11, 12] 4).bind
+      (fun r => readTerm r.1 10 r.2.2.2)
+    = some (.comb (.comb (.const "c" Ty.bool) (.const "c" Ty.bool)) (.comb (.var "q" Ty.bool) (.var "q" Ty.bool))) := by
+  decide
+
+/-- Why the cache needs `IdInv`: if the object `q q` at 3 carries the stale `_id` 2 of another live
+object (what `Term(t)` produced on the pinned tree), it receives the cached result of `?p ?p`:
+`(c c) (c c)` instead of `(c c) (q q)`. -/
+theorem subst_cache_counterexample :
+    ¬ IdInv (substHeapEx 2) ∧
+    (substHeap [("p", 5, .const "c" Ty.bool)] [] 10 (substHeapEx 2) [] [10, 11, 12] 4).bind
+      (fun r => readTerm r.1 10 r.2.2.2)
+    = some (.comb (.comb (.const "c" Ty.bool) (.const "c" Ty.bool)) (.comb (.const "c" Ty.bool) (.const "c" Ty.bool))) ∧
+    Term.substRec ⟨[], [("p", .const "c" Ty.bool)], []⟩
+      (.comb (.comb (.svar "p" Ty.bool) (.svar "p" Ty.bool)) (.comb (.var "q" Ty.bool) (.var "q" Ty.bool)))
+    = .ok (.comb (.comb (.const "c" Ty.bool) (.const "c" Ty.bool)) (.comb (.var "q" Ty.bool) (.var "q" Ty.bool))) :=
+  ⟨fun hi => absurd (hi 3 _ rfl) (by decide), by decide, by rfl⟩
 
 /-! ### the memoised hash `_hash_val` -/
 
@@ -257,6 +374,40 @@ theorem hash_memo_partial_drop_counterexample :
       simp [readTerm, inplaceHeap, sharedHeap, Heap.set, substNode, Ty.subst, List.lookup, Ty.bool]))
     subst ht
     simp [hashTree, tyHash, tyHashList, Ty.bool] at e
+
+/-! ### `==` and `hash` on heap terms (DAGs), for every history -/
+
+/-- `eq_iff_alpha` is about trees; the objects the code compares are DAGs in a heap with a history.
+For EVERY history of constructor calls, `Term(t)`, `copy`, frees of unreferenced objects, `hash`
+calls, `subst_type_inplace` (under `NoAlias`) and operations that only allocate (`subst_bound`,
+`subst`, `incr_boundvars`: `MStep.grow`), with any allocator: the heap satisfies `IdInv`, and
+`Term.__eq__` as written (the `_id` short cut first, then the recursion through shared
+sub-objects) on two live objects answers exactly alpha-equivalence of the trees they unfold to —
+True iff the name-erased unfoldings are identical; and then their hashes (memoised or not) agree. -/
+theorem heap_eq_iff_alpha (h : Heap) (m : Memo) (hst : MSteps (Heap.empty, Memo.empty) (h, m))
+    (a b : Addr) (ta tb : Term) (fuel : Nat) (ra : Repr h a ta) (rb : Repr h b tb)
+    (hs : size ta ≤ fuel) :
+    IdInv h ∧ eqFast h fuel a b = some (Term.aeq ta tb) ∧
+    (eqFast h fuel a b = some true ↔ Term.erase ta = Term.erase tb) ∧
+    (Term.aeq ta tb = true → size tb ≤ fuel → hashObs h m fuel a = hashObs h m fuel b) := by
+  have hi : IdInv h := MSteps_idinv (s := (Heap.empty, Memo.empty)) IdInv.empty hst
+  have hm : MemoInv h m := MSteps_inv (s := (Heap.empty, Memo.empty)) MemoInv.empty hst
+  have he := eqFast_sound hi fuel a b ta tb ra rb hs
+  refine ⟨hi, he, ?_, fun hab hsb => ?_⟩
+  · rw [he, ← Term.aeq_iff_erase]
+    simp
+  · rw [hashObs_eq hm ra hs, hashObs_eq hm rb hsb, hashTree_congr ta tb hab]
+
+example : ∃ h m, MSteps (Heap.empty, Memo.empty) (h, m) ∧
+    Repr h 1 (.comb (.svar "x" Ty.bool) (.svar "x" Ty.bool)) ∧ eqFast h 3 1 1 = some true :=
+  ⟨_, _, .cons (s2 := (Heap.empty.set 0 ⟨.svar "x" (.stvar "a"), 0⟩, Memo.empty))
+      (.alloc (a := 0) (n := .svar "x" (.stvar "a")) rfl) <|
+    .cons (s2 := (sharedHeap, Memo.empty)) (.alloc (a := 1) (n := .comb 0 0) rfl) <|
+    .cons (.inplace (σ := [("a", Ty.bool)]) (R := [1, 0]) (childClosed_sound (by decide))
+      (fun b _ hm => absurd rfl hm)) (.nil _),
+    readTerm_repr 3 1 _ (by
+      simp [readTerm, inplaceHeap, sharedHeap, Heap.set, substNode, Ty.subst, List.lookup, Ty.bool]),
+    by decide⟩
 
 /-! ### type instantiation -/
 
@@ -404,5 +555,56 @@ theorem betaNorm_sem_partial (M : Model) (ρ : Valuation) (hρ : Admissible M ρ
 example : Term.betaNorm 10
     (.comb (.abs "f" (Ty.fn Ty.bool Ty.bool) (.comb (.bound 0) (.comb (.bound 0) (.var "a" Ty.bool))))
       (.abs "x" Ty.bool (.bound 0))) = .ok (.var "a" Ty.bool) := by rfl
+
+/-- `beta_conv` on a well-typed redex (under any enclosing binders): the result is well-typed at the
+same type and denotes the same in every standard model, valuation and environment. -/
+theorem betaConv_sem (M : Model) (ρ : Valuation) (hρ : Admissible M ρ) (bd : List Ty) (env : List Nat)
+    (henv : EnvOK M bd env) (t r : Term) (S : Ty) (h : Term.checkedGetType bd t = .ok S)
+    (hr : Term.betaConv t = .ok r) :
+    Term.checkedGetType bd r = .ok S ∧ sem M ρ bd env r = sem M ρ bd env t := by
+  unfold Term.betaConv at hr
+  split at hr
+  · rename_i x T b a
+    simp only [Term.substBound, Except.ok.injEq] at hr
+    subst hr
+    exact ⟨checked_beta bd x T S b a h, sem_beta M ρ hρ bd env henv x T S b a h⟩
+  · cases hr
+
+example : Term.betaConv (.comb (.abs "x" Ty.bool (.comb (.var "g" (Ty.fn Ty.bool Ty.bool)) (.bound 0)))
+    (.var "x" Ty.bool)) = .ok (.comb (.var "g" (Ty.fn Ty.bool Ty.bool)) (.var "x" Ty.bool)) := by rfl
+
+/-- `beta_norm`, complete statement of what holds without strong normalisation.  For EVERY recursion
+depth `fuel`: the answer is either a term or "depth exhausted" — never a TermException; and on every
+depth on which it returns, the result (1) contains no redex, (2) is well-typed at the same type,
+(3) denotes the same in every standard model, valuation and environment, and (4) is THE result: every
+larger depth returns the same term (the fuel is not observable; this is what `betaNorm_sem_partial`
+did not say).  What remains unproved is only that SOME depth suffices for every well-typed term
+(strong normalisation of the simply typed lambda calculus); for ill-typed terms none need exist,
+e.g. `(%x. x x) (%x. x x)`. -/
+theorem betaNorm_sem (M : Model) (ρ : Valuation) (hρ : Admissible M ρ) (fuel : Nat)
+    (bd : List Ty) (env : List Nat) (henv : EnvOK M bd env) (t : Term) (S : Ty)
+    (h : Term.checkedGetType bd t = .ok S) :
+    (∀ e, Term.betaNorm fuel t = .error e → e = .fuel) ∧
+    (∀ t', Term.betaNorm fuel t = .ok t' →
+      betaNormal t' = true ∧ Term.checkedGetType bd t' = .ok S ∧
+      sem M ρ bd env t' = sem M ρ bd env t ∧
+      ∀ fuel', fuel ≤ fuel' → Term.betaNorm fuel' t = .ok t') :=
+  ⟨fun e he => betaNorm_error fuel t e he, fun t' hn =>
+    ⟨betaNorm_normal fuel t t' hn, (sem_betaNorm M ρ hρ fuel bd env henv t t' S h hn).1,
+      (sem_betaNorm M ρ hρ fuel bd env henv t t' S h hn).2,
+      fun fuel' hle => betaNorm_mono fuel fuel' t t' hn hle⟩⟩
+
+example : Term.betaNorm 3
+    (.comb (.abs "f" (Ty.fn Ty.bool Ty.bool) (.comb (.bound 0) (.comb (.bound 0) (.var "a" Ty.bool))))
+      (.abs "x" Ty.bool (.bound 0))) = .error .fuel ∧
+    Term.betaNorm 6
+    (.comb (.abs "f" (Ty.fn Ty.bool Ty.bool) (.comb (.bound 0) (.comb (.bound 0) (.var "a" Ty.bool))))
+      (.abs "x" Ty.bool (.bound 0))) = .ok (.var "a" Ty.bool) := by
+  constructor <;> rfl
+
+/-- the self-application `(%x. x x) (%x. x x)` (ill-typed) exhausts every small depth: termination is
+a property of well-typed terms only -/
+example : Term.betaNorm 40 (.comb (.abs "x" Ty.bool (.comb (.bound 0) (.bound 0)))
+    (.abs "x" Ty.bool (.comb (.bound 0) (.bound 0)))) = .error .fuel := by rfl
 
 end Holpy.C03
